@@ -27,3 +27,50 @@ Proof.
 Qed.
 
 Print Assumptions C06_dN_is_derive.
+
+(* second derivative tables: entry (i, d) of _ddN is the derivative of entry (i, d) of _dN
+   with respect to variable d+1; same for _dddN / _ddN and _ddddN / _dddN *)
+Lemma higher_is_derive (prev next : list (list (PExpr Q))) :
+  (forall (l : list R) i d row en, nth_error next i = Some row -> nth_error row d = Some en ->
+     Reval l en = Reval l (pd (Pos.of_nat (S d)) (col d (nth i prev []) PEO))) ->
+  forall i rowp rown, nth_error prev i = Some rowp -> nth_error next i = Some rown ->
+  forall r s t : R,
+   (forall ep en, nth_error rowp 0 = Some ep -> nth_error rown 0 = Some en ->
+      is_derive (fun x => Reval [x; s; t] ep) r (Reval [r; s; t] en)) /\
+   (forall ep en, nth_error rowp 1 = Some ep -> nth_error rown 1 = Some en ->
+      is_derive (fun x => Reval [r; x; t] ep) s (Reval [r; s; t] en)) /\
+   (forall ep en, nth_error rowp 2 = Some ep -> nth_error rown 2 = Some en ->
+      is_derive (fun x => Reval [r; s; x] ep) t (Reval [r; s; t] en)).
+Proof.
+  intros H i rowp rown Hp Hn r s t.
+  assert (Hnth : nth i prev [] = rowp) by (apply nth_error_nth; exact Hp).
+  split; [|split]; intros ep en Hep Hen.
+  - rewrite (H [r; s; t] i 0%nat rown en Hn Hen), Hnth. unfold col.
+    rewrite (nth_error_nth rowp 0 PEO Hep). apply pd_is_derive_1.
+  - rewrite (H [r; s; t] i 1%nat rown en Hn Hen), Hnth. unfold col.
+    rewrite (nth_error_nth rowp 1 PEO Hep). apply pd_is_derive_2.
+  - rewrite (H [r; s; t] i 2%nat rown en Hn Hen), Hnth. unfold col.
+    rewrite (nth_error_nth rowp 2 PEO Hep). apply pd_is_derive_3.
+Qed.
+
+Theorem C06_higher_tables_are_derivatives : forall e, In e all_elems ->
+  exists d1 d2 d3 d4, edN e = Some d1 /\ eddN e = Some d2 /\ edddN e = Some d3 /\ eddddN e = Some d4 /\
+  forall prev next, (prev, next) = (d1, d2) \/ (prev, next) = (d2, d3) \/ (prev, next) = (d3, d4) ->
+  forall i rowp rown, nth_error prev i = Some rowp -> nth_error next i = Some rown ->
+  forall r s t : R,
+   (forall ep en, nth_error rowp 0 = Some ep -> nth_error rown 0 = Some en ->
+      is_derive (fun x => Reval [x; s; t] ep) r (Reval [r; s; t] en)) /\
+   (forall ep en, nth_error rowp 1 = Some ep -> nth_error rown 1 = Some en ->
+      is_derive (fun x => Reval [r; x; t] ep) s (Reval [r; s; t] en)) /\
+   (forall ep en, nth_error rowp 2 = Some ep -> nth_error rown 2 = Some en ->
+      is_derive (fun x => Reval [r; s; x] ep) t (Reval [r; s; t] en)).
+Proof.
+  intros e He.
+  destruct (C06_derivative_tables e He) as (d1 & d2 & d3 & d4 & E1 & E2 & E3 & E4 & Htab).
+  exists d1, d2, d3, d4. repeat (split; [assumption|]).
+  intros prev next Hpn. apply higher_is_derive.
+  intros l i d row en Hr Hen. destruct (Htab l i d) as (_ & H2 & H3 & H4).
+  destruct Hpn as [E|[E|E]]; inversion E; subst; eauto.
+Qed.
+
+Print Assumptions C06_higher_tables_are_derivatives.
